@@ -348,15 +348,15 @@ def anonymousStructName (e : RustEnum) (variantOriginal : Str) : Str :=
   e.id.renamed ++ variantOriginal ++ s%"Inner"
 
 /-- `variant_name` of an algebraic enum's variant -/
-def algebraicCaseName (v : RustEnumVariant) : Str :=
-  let n := Rename.toCamel v.id.original
+def algebraicCaseName (U : UnicodeOps) (v : RustEnumVariant) : Str :=
+  let n := Rename.toCamel U v.id.original
   match n with
   | c :: _ => if Str.isAsciiDigit c then s%"_" ++ n else n
   | [] => n
 
 /-- one variant of an algebraic enum -/
-def algebraicCase (cfg : Cfg) (e : RustEnum) (v : RustEnumVariant) (st : St) : Outcome (EnumCase × St) :=
-  let name := algebraicCaseName v
+def algebraicCase (U : UnicodeOps) (cfg : Cfg) (e : RustEnum) (v : RustEnumVariant) (st : St) : Outcome (EnumCase × St) :=
+  let name := algebraicCaseName U v
   let mk (p : Option Payload) : EnumCase :=
     { comments := v.comments, caseName := name, printedName := kw name, wireName := v.id.renamed, payload := p }
   match v with
@@ -368,15 +368,15 @@ def algebraicCase (cfg : Cfg) (e : RustEnum) (v : RustEnumVariant) (st : St) : O
     let gens := (fields.flatMap fun f => e.genericTypes.filter fun g => f.ty.containsType g).eraseDups
     .ok (mk (some ⟨cfg.pfx ++ anonymousStructName e id.original ++ genericSuffix gens, false⟩), st)
 
-def algebraicCases (cfg : Cfg) (e : RustEnum) : List RustEnumVariant → St → Outcome (List EnumCase × St)
+def algebraicCases (U : UnicodeOps) (cfg : Cfg) (e : RustEnum) : List RustEnumVariant → St → Outcome (List EnumCase × St)
   | [], st => .ok ([], st)
   | v :: vs, st =>
-    (algebraicCase cfg e v st).bind fun (c, st) =>
-    (algebraicCases cfg e vs st).bind fun (cs, st) => .ok (c :: cs, st)
+    (algebraicCase U cfg e v st).bind fun (c, st) =>
+    (algebraicCases U cfg e vs st).bind fun (cs, st) => .ok (c :: cs, st)
 
 /-- one variant of a unit enum -/
-def unitCase (v : RustEnumVariant) : EnumCase :=
-  let name := Rename.toCamel v.id.original
+def unitCase (U : UnicodeOps) (v : RustEnumVariant) : EnumCase :=
+  let name := Rename.toCamel U v.id.original
   { comments := v.comments, caseName := name, printedName := kw name, wireName := v.id.renamed, payload := none }
 
 /-- `coding_keys.push(..)` of an algebraic variant -/
@@ -419,8 +419,8 @@ def enumFacts (U : UnicodeOps) (cfg : Cfg) (e : RustEnum) (st : St) :
   let name := kw (cfg.pfx ++ e.id.renamed)
   (anonymousStructs U cfg e (structVariants e) st).bind fun (structs, st) =>
   (match e.keys with
-   | none => Outcome.ok (e.variants.map unitCase, st)
-   | some _ => algebraicCases cfg e e.variants st).bind fun (cases, st) =>
+   | none => Outcome.ok (e.variants.map (unitCase U), st)
+   | some _ => algebraicCases U cfg e e.variants st).bind fun (cases, st) =>
     .ok (structs,
          { comments := e.comments,
            indirect := e.isRecursive,
